@@ -1,0 +1,87 @@
+//go:build verif
+
+package headers
+
+import (
+	"context"
+
+	"github.com/tokenized/pkg/bitcoin"
+
+	"github.com/pkg/errors"
+)
+
+// Hooks used only by the external verification harness (build tag "verif"). They add entry points
+// and never change the behaviour of existing code.
+
+// VerifClean performs the same steps as clean but with a caller chosen prune depth.
+func (repo *Repository) VerifClean(ctx context.Context, depth int) error {
+	repo.Lock()
+	defer repo.Unlock()
+
+	if err := repo.consolidate(ctx); err != nil {
+		return errors.Wrap(err, "consolidate")
+	}
+
+	if err := repo.saveMainBranch(ctx); err != nil {
+		return errors.Wrap(err, "save main branches")
+	}
+
+	if err := repo.prune(ctx, depth); err != nil {
+		return errors.Wrap(err, "prune")
+	}
+
+	if err := saveInvalidHashes(ctx, repo.store, repo.invalidHashes); err != nil {
+		return errors.Wrap(err, "invalid hashes")
+	}
+
+	return nil
+}
+
+// VerifLoad is Load with a caller chosen prune depth.
+func (repo *Repository) VerifLoad(ctx context.Context, depth int) error {
+	repo.Lock()
+	defer repo.Unlock()
+
+	return repo.load(ctx, depth)
+}
+
+// VerifTarget returns the bits the difficulty algorithm requires for a header at the specified
+// height whose previous header has the specified hash.
+func (repo *Repository) VerifTarget(ctx context.Context, previousHash bitcoin.Hash32,
+	height int) (uint32, error) {
+	repo.Lock()
+	defer repo.Unlock()
+
+	branch, previousHeight := repo.branches.Find(previousHash)
+	if branch == nil {
+		return 0, ErrUnknownHeader
+	}
+	if previousHeight+1 != height {
+		return 0, errors.New("Wrong height")
+	}
+
+	target, err := branch.Target(ctx, height)
+	if err != nil {
+		return 0, err
+	}
+
+	return bitcoin.ConvertToBits(target, bitcoin.MaxBits), nil
+}
+
+// VerifSplits returns the configured chain splits and the required split.
+func (repo *Repository) VerifSplits() (Splits, *Split) {
+	repo.Lock()
+	defer repo.Unlock()
+
+	result := make(Splits, len(repo.splits))
+	copy(result, repo.splits)
+	return result, repo.requiredSplit
+}
+
+// VerifBranchCount returns the number of branches currently held in memory.
+func (repo *Repository) VerifBranchCount() int {
+	repo.Lock()
+	defer repo.Unlock()
+
+	return len(repo.branches)
+}
